@@ -5,6 +5,7 @@ regenerated trace loop; container: the protocol LTS of C10 with cancellation ena
 host location.  Real-time bounds are observed by the harness, not proved (partial).
 PROPERTY THEOREMS ONLY.
 -/
+import GoSandbox.Gen.C17
 import GoSandbox.Model.Cancel
 import GoSandbox.Model.Rpc
 namespace GoSandbox.Props.C11
@@ -52,6 +53,16 @@ theorem C11_killAll_group :
     [Gen.C11.killAllPtrace, Gen.C11.killAllUnshare].all (fun f =>
       match killTargets f 4242 with | .ok l => l == [(-4242, Int.ofNat Gen.Consts.unix_SIGKILL)] | .error _ => false) = true := by
   decide +kernel
+
+/-- **the clean-up after a (cancelled) run waits for the run's own processes only** (regenerated fact): every
+`wait4` of the ptrace tracer and of the namespace runner selects the program's pid or its process group — a
+wait for "any child" would block until unrelated children of the host process (another run, a container
+environment) end, and the run would not return within bounded time. -/
+theorem C11_gen_cleanup_waits_own_group :
+    (Gen.C17.waitSites.filter (fun s => s.1 == "ptracer/tracer_track_linux.go" || s.1 == "runner/unshare/run_linux.go")).all
+      (fun s => s.2.2 == "pgid" || s.2.2 == "-pgid") = true ∧
+    (Gen.C17.waitSites.filter (fun s => s.2.1 == "collectZombie")).map (·.2.2) = ["-pgid", "-pgid"] := by
+  constructor <;> decide +kernel
 
 /-- **container**: cancellation is enabled at every host location of an Execve in the protocol
 model; every maximal run still ends with the host returned and the environment in sync, in a
